@@ -6,11 +6,13 @@ from . import C10
 
 LEVEL = ("(M1) typestate interpretation with one extra bit 'the termination condition fired during "
          "this API call': every API return reached with the bit set carries only Unknown / "
-         "Satisfiable(best) — never Unsatisfiable, Optimal or Finished; the same TABLE locally for the "
-         "command-line front-ends' matches on library results; (M2) in the search loop the poll "
-         "dominates propagation and every state declaration, and the timeout is declared only on its "
-         "true edge; (M3, shared with C10) an interrupted solve leaves the solver reusable. Does not "
-         "decide that the answer of the re-asked solve is correct")
+         'Satisfiable(best) — never Unsatisfiable, Optimal or Finished; the same TABLE locally for the'
+         " command-line front-ends' matches on library results; (M2) in the search loop the poll "
+         'dominates propagation and every state declaration, and the timeout is declared only on its '
+         'true edge; (M3, shared with C10) an interrupted solve leaves the solver reusable. Also runs '
+         'the LIFE-CYCLE BUNDLE (…L<n>): the typestate rules over arbitrary API sequences of C10 '
+         '(usable root state after every call, inert posting in inconsistent states, entry guards, '
+         'stored-solution extent). Does not decide that the answer of the re-asked solve is correct')
 TECHNIQUE = "static analysis: typestate abstract interpretation + CFG dominance over rustc MIR"
 
 DEFINITIVE = {"Unsatisfiable", "Optimal", "Finished", "Infeasible", "UnsatisfiableUnderAssumptions"}
@@ -202,3 +204,5 @@ def run(ctx, led):
     from . import shared as _shared, C03 as _C03
     run_rule(led, "M4", "an interrupted assumption solve leaves no assumptions behind: every solve overwrites them (shared with C05-A3)", _shared.assumptions_overwritten, ctx)
     run_rule(led, "M5", "the solution iterator remembers across calls that a solution was seen, so a resumed final call reports Finished, not Unsatisfiable (shared with C03-B3)", _C03.b3, ctx)
+    from . import kernel as _kernel2
+    _kernel2.run_lifecycle(led, ctx, "M")
